@@ -339,6 +339,9 @@ func (sr *sentRun) connFn(dst string, opt *ClientOption) conn {
 	sr.muxSeq[role+"/"+dst] = k + 1
 	sr.mu.Unlock()
 	tag := fmt.Sprintf("%s/%s/%d", role, dst, k)
+	// With SendToReplicas a refresh opens the master and the replica connection from two goroutines at once; building a
+	// multiplexer creates scheduler-named lockers, so the two constructions are put in an order the scheduler chooses.
+	sr.sim().Park("bg|connFn|" + tag)
 	o := *opt
 	net0 := sr.sim().Net
 	o.DialCtxFn = func(ctx context.Context, dst string, _ *net.Dialer, _ *tls.Config) (net.Conn, error) {
